@@ -297,9 +297,9 @@ impl NativeFunctionCall {
         for (list_item, list_item_value) in list_val.items.iter() {
             let target_int = {
                 if self.op == Op::Add {
-                    list_item_value + int_val
+                    list_item_value.wrapping_add(int_val)
                 } else {
-                    list_item_value - int_val
+                    list_item_value.wrapping_sub(int_val)
                 }
             };
 
